@@ -134,7 +134,7 @@ func startShovelOn(e *core.Env, url string, confDoc func(pgurl string) string, e
 		case <-exited:
 			out := p.out.String()
 			p.stop()
-			return nil, fmt.Errorf("shovel exited during start-up: %s", lastLines(out, 6))
+			return nil, fmt.Errorf("shovel exited during start-up: %s", lastLines(out, 40))
 		default:
 		}
 		if resp, err := cl.Get(fmt.Sprintf("http://127.0.0.1:%d/login", p.port)); err == nil {
@@ -144,7 +144,7 @@ func startShovelOn(e *core.Env, url string, confDoc func(pgurl string) string, e
 	}
 	out := p.out.String()
 	p.stop()
-	return nil, fmt.Errorf("the dashboard did not come up: %s", lastLines(out, 6))
+	return nil, fmt.Errorf("the dashboard did not come up: %s", lastLines(out, 40))
 }
 
 func lastLines(s string, n int) string {
